@@ -6,8 +6,9 @@
   the slot totals or the interleaving.  I/O side: `xread` / `xwrite` hide
   short reads and short writes.
 -/
-import LbzVerif.Lemmas.SchedC.OutputN
-import LbzVerif.Lemmas.SchedC.Witness
+import LbzVerif.Lemmas.SchedC.CanonSorted
+import LbzVerif.Lemmas.SchedC.WitnessS
+import LbzVerif.Lemmas.SchedC.Wake
 
 namespace LbzVerif.Props.C03
 open LbzVerif.Gen LbzVerif.Model.SchedC
@@ -47,40 +48,94 @@ theorem sink_prefix {c : Cfg} {cd : Codec α σ} {input : List α} {s : State α
     s.handed = s.written ++ s.wr.toList ++ s.outputQ ∧ Chain ⟨0, 0⟩ s.handed s.order :=
   ⟨(order_reach h).fifo, (order_reach h).chain⟩
 
-/-- **output_perm** (non-sequential mode): in a terminated run the blocks
-    written are, as a multiset, exactly the canonical block list of the input
-    (`canon`: cut into chunks, `collect` repeatedly inside each chunk), and
-    they are strictly ordered by position. -/
-theorem output_perm_partial {c : Cfg} {cd : Codec α σ} {input : List α} {s : State α σ}
-    (ok : cd.OK) (hu : c.ultra = false) (hg : 0 < c.inGranul) (h : Reach c cd input s)
-    (hf : finished c s = true) :
-    s.written = s.handed ∧ s.handed.Perm (canon c cd input) ∧
-      s.handed.Pairwise (fun x y => x.pos.lt y.pos = true) := by
+/-- **output_canon** (both modes, full strength).  In every reachable state
+    in which `can_terminate()` holds — whatever the worker count, the slot
+    totals, the interleaving, the spurious wake-ups — the blocks handed to the
+    sink, and the blocks written, are exactly the canonical block list
+    `canon c cd input`, which is a function of the input, `--sequential` and
+    the chunk size only (`canon_depends`):
+    non-sequential: cut the input into chunks, `collect` repeatedly inside each
+    chunk; sequential: run `collect` over the chunks in order, a block may span
+    chunks.  Hypotheses: the facts `Codec.OK` about `collect()` (theorems about
+    the real collector in `Props.C04.Blocks.realCodec_ok`) and a positive chunk
+    size. -/
+theorem output_canon {c : Cfg} {cd : Codec α σ} {input : List α} {s : State α σ}
+    (ok : cd.OK) (hg : 0 < c.inGranul) (h : Reach c cd input s) (hf : finished c s = true) :
+    s.written = canon c cd input ∧ s.handed = canon c cd input := by
   have r := restores_of_finished (inv1_reach h).cons (inv1_reach h).sel (reader_reach h) hf
   have hfifo := (order_reach h).fifo
   rw [r.2.2.2.2.2.1, r.2.2.2.2.2.2.1] at hfifo
-  refine ⟨by simpa using hfifo.symm, handed_perm_canon_N ok hu hg h hf, ?_⟩
-  exact (chain_pairwise (order_reach h).chain).1
+  have hw : s.written = s.handed := by simpa using hfifo.symm
+  have hc := handed_eq_canon ok hg h hf
+  exact ⟨hw.trans hc, hc⟩
 
-/-- **output_eq** (`_partial`: non-sequential mode only).  Two terminated
-    runs on the same input with the same chunk size — ANY two worker counts,
-    ANY slot totals, ANY two interleavings — write the same block sequence.
-    Missing for the full statement: the counting invariant for sequential mode
-    (`ultra = true`, blocks spanning chunks, `seqBlocks`); there the equality
-    `handed = canon` is only checked by exhaustive exploration
-    (`schedc-bfs`, `final-viol = 0`). -/
+/-- the same at the end of a run: when every thread has gone (`isFinal`: what
+    `primary_thread` sees after the joins; at least one worker), a worker has
+    exited, which it does only when `can_terminate()` holds. -/
+theorem output_final {c : Cfg} {cd : Codec α σ} {input : List α} {s : State α σ}
+    (ok : cd.OK) (hg : 0 < c.inGranul) (hn : 1 ≤ c.n) (h : Reach c cd input s)
+    (hfin : isFinal s = true) : s.written = canon c cd input := by
+  have hall : s.ws.all (·.isExited) = true := by
+    simp only [isFinal, Bool.and_eq_true] at hfin; exact hfin.1.1.1
+  have hlen := (inv1_reach h).cons.nWorkers
+  cases hws : s.ws with
+  | nil => rw [hws] at hlen; simp at hlen; omega
+  | cons p l =>
+    have hp : p.isExited = true := List.all_eq_true.mp hall p (by rw [hws]; exact List.mem_cons_self)
+    have : p = .exited := by cases p <;> simp [WPhase.isExited] at hp ⊢
+    have hf := ((wake_reach h).exitFin (by rw [hws, this]; exact List.mem_cons_self)).1
+    exact (output_canon ok hg h hf).1
+
+/-- `canon` reads nothing of the configuration but `--sequential` and the
+    chunk size: not the worker count, not the slot totals. -/
+theorem canon_depends {c₁ c₂ : Cfg} (cd : Codec α σ) (input : List α)
+    (hu : c₁.ultra = c₂.ultra) (hgg : c₁.inGranul = c₂.inGranul) :
+    canon c₁ cd input = canon c₂ cd input := by
+  simp only [canon, hu, hgg]
+
+/-- **output_eq** (both modes, full strength).  Two terminated runs on the
+    same input with the same mode and chunk size — ANY two worker counts, ANY
+    slot totals, ANY two interleavings — write the same block sequence. -/
+theorem output_eq {c₁ c₂ : Cfg} {cd : Codec α σ} {input : List α}
+    {s₁ s₂ : State α σ} (ok : cd.OK) (hu : c₁.ultra = c₂.ultra)
+    (hg : 0 < c₁.inGranul) (hgg : c₁.inGranul = c₂.inGranul)
+    (h₁ : Reach c₁ cd input s₁) (f₁ : finished c₁ s₁ = true)
+    (h₂ : Reach c₂ cd input s₂) (f₂ : finished c₂ s₂ = true) :
+    s₁.written = s₂.written := by
+  rw [(output_canon ok hg h₁ f₁).1, (output_canon ok (hgg ▸ hg) h₂ f₂).1]
+  exact canon_depends cd input hu hgg
+
+/-- the same for the concrete configurations `set_memory_constraints()`
+    computes: worker counts `n₁`, `n₂` arbitrary, same level and mode. -/
+theorem output_eq_gen {n₁ n₂ bs : Nat} {u : Bool} {cd : Codec α σ} {input : List α}
+    {s₁ s₂ : State α σ} (ok : cd.OK) (hbs : 0 < bs)
+    (h₁ : Reach (Cfg.ofGen n₁ bs u) cd input s₁) (f₁ : finished (Cfg.ofGen n₁ bs u) s₁ = true)
+    (h₂ : Reach (Cfg.ofGen n₂ bs u) cd input s₂) (f₂ : finished (Cfg.ofGen n₂ bs u) s₂ = true) :
+    s₁.written = s₂.written := by
+  have hg : 0 < (Cfg.ofGen n₁ bs u).inGranul := by
+    simp only [Cfg.ofGen, memCompress]; omega
+  exact output_eq (c₁ := Cfg.ofGen n₁ bs u) (c₂ := Cfg.ofGen n₂ bs u) ok rfl hg rfl h₁ f₁ h₂ f₂
+
+/-- **output_perm**: the multiset form together with strict position order
+    (what the counting invariants `OutN` / `OutS` give directly). -/
+theorem output_perm {c : Cfg} {cd : Codec α σ} {input : List α} {s : State α σ}
+    (ok : cd.OK) (hg : 0 < c.inGranul) (h : Reach c cd input s)
+    (hf : finished c s = true) :
+    s.written = s.handed ∧ s.handed.Perm (canon c cd input) ∧
+      s.handed.Pairwise (fun x y => x.pos.lt y.pos = true) := by
+  obtain ⟨a, b⟩ := output_canon ok hg h hf
+  exact ⟨a.trans b.symm, b ▸ List.Perm.refl _, (chain_pairwise (order_reach h).chain).1⟩
+
+/-- `output_eq` restricted to non-sequential mode.  NOT partial any more: kept
+    under its old name because `checks/C03.py` asks for it; it is a corollary of
+    `output_eq`. -/
 theorem output_eq_partial {c₁ c₂ : Cfg} {cd : Codec α σ} {input : List α}
     {s₁ s₂ : State α σ} (ok : cd.OK) (hu₁ : c₁.ultra = false) (hu₂ : c₂.ultra = false)
     (hg : 0 < c₁.inGranul) (hgg : c₁.inGranul = c₂.inGranul)
     (h₁ : Reach c₁ cd input s₁) (f₁ : finished c₁ s₁ = true)
     (h₂ : Reach c₂ cd input s₂) (f₂ : finished c₂ s₂ = true) :
-    s₁.written = s₂.written := by
-  obtain ⟨w1, p1, o1⟩ := output_perm_partial ok hu₁ hg h₁ f₁
-  obtain ⟨w2, p2, o2⟩ := output_perm_partial ok hu₂ (hgg ▸ hg) h₂ f₂
-  have hc : canon c₁ cd input = canon c₂ cd input := by
-    simp only [canon, hu₁, hu₂, hgg]
-  rw [w1, w2]
-  exact eq_of_perm_sorted (p1.trans (hc ▸ p2.symm)) o1 o2
+    s₁.written = s₂.written :=
+  output_eq ok (hu₁.trans hu₂.symm) hg hgg h₁ f₁ h₂ f₂
 
 /-- non-vacuity: the witness codec satisfies `Codec.OK`, and a terminated
     3-block run exists. -/
@@ -109,5 +164,19 @@ theorem wCodec_ok : wCodec.OK := by
 example : finished wCfg wFinal = true ∧ Reach wCfg wCodec wInput wFinal ∧ wCodec.OK ∧
     wCfg.ultra = false ∧ 0 < wCfg.inGranul ∧ wFinal.written.map (·.enc) = [[0, 1], [0, 1], [0]] :=
   ⟨wFinal_facts.2.1, wFinal_reach, wCodec_ok, rfl, by decide, wFinal_facts.2.2.2⟩
+
+/-- non-vacuity in sequential mode: a terminated run whose first block ends
+    inside chunk 1 and whose second block spans chunks 1–2; and the canonical
+    list obtained through `output_canon`. -/
+example : finished sCfg sFinal = true ∧ Reach sCfg wCodec sInput sFinal ∧
+    sCfg.ultra = true ∧ 0 < sCfg.inGranul ∧
+    sFinal.written.map (·.enc) = [[0, 0, 1], [0, 0, 1], [0]] ∧
+    (canon sCfg wCodec sInput).map (·.enc) = [[0, 0, 1], [0, 0, 1], [0]] :=
+  ⟨sFinal_facts.2.1, sFinal_reach, rfl, by decide, sFinal_facts.2.2.2, by
+    rw [← (output_canon wCodec_ok (by decide) sFinal_reach sFinal_facts.2.1).1]
+    exact sFinal_facts.2.2.2⟩
+
+/-- the two witnesses differ only in mode: the outputs differ, as they may -/
+example : wFinal.written.map (·.enc) ≠ sFinal.written.map (·.enc) ∨ wInput ≠ sInput := by decide
 
 end LbzVerif.Props.C03
